@@ -7,15 +7,15 @@ import (
 
 // KnownFinding is one entry of /verif/known_findings.json (committed, never written at run time).
 type KnownFinding struct {
-	ID        string `json:"id"`
-	Property  string `json:"property"`
-	Status    string `json:"status"` // known | fixed
-	What      string `json:"what"`
+	ID        string   `json:"id"`
+	Property  string   `json:"property"`
+	Status    string   `json:"status"` // known | fixed
+	What      string   `json:"what"`
 	Also      []string `json:"also_properties,omitempty"` // other properties under which the same defect is observable
-	Signature string `json:"signature,omitempty"` // narrow class of witnesses counted under this finding
-	Witness   string `json:"witness,omitempty"`   // human-readable witness (the executable one lives in witnesses.go under the same id)
-	Commit    string `json:"commit,omitempty"`
-	Record    string `json:"record,omitempty"` // "fixed: property=<id> <commit> <what failed>"
+	Signature string   `json:"signature,omitempty"`       // narrow class of witnesses counted under this finding
+	Witness   string   `json:"witness,omitempty"`         // human-readable witness (the executable one lives in witnesses.go under the same id)
+	Commit    string   `json:"commit,omitempty"`
+	Record    string   `json:"record,omitempty"` // "fixed: property=<id> <commit> <what failed>"
 
 	stillFails bool
 }
